@@ -351,3 +351,44 @@ def init_box(repo, spec):
 
 register_extractor('option_chain', option_chain)
 register_extractor('init_box', init_box)
+
+
+def guard_of_assign(repo, spec):
+    """tests of the `if`s enclosing the unique assignment to `target` inside func, outermost first"""
+    src = Source(repo, spec['file'])
+    fn = src.find_def(spec['func'])
+    found = []
+
+    def visit(node, guards):
+        for child in ast.iter_child_nodes(node):
+            if isinstance(child, ast.If):
+                for st in child.body:
+                    visit_stmt(st, guards + [ast.unparse(child.test)])
+                for st in child.orelse:
+                    visit_stmt(st, guards + ['not (' + ast.unparse(child.test) + ')'])
+            else:
+                visit_stmt(child, guards)
+
+    def visit_stmt(st, guards):
+        if isinstance(st, ast.Assign) and len(st.targets) == 1 and ast.unparse(st.targets[0]).replace("'", '"') == spec['target']:
+            found.append((st, guards))
+        elif isinstance(st, ast.If):
+            for s2 in st.body:
+                visit_stmt(s2, guards + [ast.unparse(st.test)])
+            for s2 in st.orelse:
+                visit_stmt(s2, guards + ['not (' + ast.unparse(st.test) + ')'])
+        elif isinstance(st, (ast.For, ast.While, ast.With, ast.Try)):
+            for s2 in getattr(st, 'body', []) + getattr(st, 'orelse', []) + getattr(st, 'finalbody', []):
+                visit_stmt(s2, guards)
+    for st in fn.body:
+        visit_stmt(st, [])
+    if len(found) != 1:
+        raise TranslateError(f"{spec['file']}: expected one assignment to {spec['target']} in {spec['func']}, found {len(found)}")
+    st, guards = found[0]
+    where, sha = src.stamp(st)
+    text = (f"(* {spec['name']} <- {where} sha256={sha} *)\n"
+            f"Definition {spec['name']} : list string := [{'; '.join(coq_string(g) for g in guards)}].\n")
+    return text, {'name': spec['name'], 'where': where, 'sha256': sha}
+
+
+register_extractor('guard_of_assign', guard_of_assign)
